@@ -14,7 +14,7 @@
 # function maps to one string must always give the same match result.
 # Faults: set() of a URL the stem function rejects, iterator cancellation.
 #
-from sim.core import ABSENT, HarnessError, Violation, canon, dec_value, geometric, r, same, stream, weighted_choice
+from sim.core import bounded, ABSENT, HarnessError, Violation, canon, dec_value, geometric, r, same, stream, weighted_choice
 
 NAME = "C11"
 
@@ -419,6 +419,9 @@ class Run(object):
         if not same(got, expected):
             self.fail(invariant, op, got, expected, detail)
 
+    def entries_now(self, rec):
+        return len(self.model)
+
     def lru_arg(self, stems, how):
         # the serialised format cannot represent an empty stem list or a last
         # stem ending in '|' (trailing pipes are stripped): pass those as lists
@@ -467,7 +470,7 @@ class Run(object):
             self.stats.probe("hierarchy_law_checked")
         self.expect("len", op, len(self.trie), len(self.model))
         if do_iter:
-            got = sorted(r(v) for v in self.trie)
+            got = sorted(r(v) for v in bounded(self.trie, len(self.model)))
             exp = sorted(r(v) for v in self.model.values())
             self.stats.checks += 1
             if got != exp:
@@ -675,7 +678,7 @@ class Run(object):
             rec = self.iters.get(ev["it"])
             if rec is None:
                 return
-            n = ev.get("n", 1) if op == "iter_next" else 1 << 30
+            n = ev.get("n", 1) if op == "iter_next" else 4 * self.entries_now(rec) + 64
             done = False
             try:
                 while n > 0:
